@@ -1,5 +1,6 @@
 """Calls, statements, loops and the per-function driver of Engine P."""
 import ast
+import os
 import z3
 
 from .sym import (SV, State, Unsupported, NONE, MARKER, mk_int, mk_bool,
@@ -167,6 +168,9 @@ class Exec(ExprMixin, SpecMixin, Engine):
             return [(s, SV("cls", None, ("dyn", self.cls_of(s, args[0]))))]
         if name == "bool":
             return [(s, mk_bool(self.truth(s, args[0])))]
+        if name in ("max", "min") and len(args) == 2 and all(a.kind in ("int", "bool") for a in args):
+            a, b = [z3.If(x.z, 1, 0) if x.kind == "bool" else x.z for x in args]
+            return [(s, mk_int(z3.If(a >= b, a, b) if name == "max" else z3.If(a <= b, a, b)))]
         if name == "next" and len(args) == 1 and args[0].kind == "ref":
             return self.iter_next(s, args[0])
         if name == "tuple" and args and args[0].kind == "list":
@@ -360,11 +364,13 @@ class Exec(ExprMixin, SpecMixin, Engine):
                        if self.resolve(c, name)]
         res = []
         cid = self.cls_of(s, obj)
+        if obj.x is None:
+            classes = [c for c in classes if self.feasible(s, cid == CLASS_IDS[c])]
+            if len(classes) > 1 and self.cur is not None and self.cur.ghost.get("prune_dispatch"):
+                classes = [c for c in classes if not self.refuted_with_quantifiers(s, cid == CLASS_IDS[c])]
         for c in classes:
             if obj.x is None:
                 cnd = cid == CLASS_IDS[c]
-                if not self.feasible(s, cnd):
-                    continue
                 s2 = s.copy()
                 s2.assume(cnd)
                 s2.trace.append("%s is %s" % (name, c))
@@ -374,7 +380,23 @@ class Exec(ExprMixin, SpecMixin, Engine):
             if q is None:
                 raise Unsupported("no method %s on %s" % (name, c))
             res.extend(self.call_qual(s2, q, SV("ref", obj.z, c), args, kw))
+        if not res and self.refuted_with_quantifiers(s, z3.BoolVal(True)):
+            return []          # the path itself is infeasible (its condition is contradictory)
         if not res:
+            if os.environ.get("PYVC_DEBUG_CORE"):
+                sv = z3.Solver(); sv.set("unsat_core", True); sv.set("timeout", 20000)
+                nm = {}
+                for i, h in enumerate(s.pc):
+                    nm["h%d" % i] = h
+                    sv.assert_and_track(h, z3.Bool("h%d" % i))
+                print("DEBUG no receiver for", name, "pc is", sv.check())
+                try:
+                    for cc in sv.unsat_core():
+                        h = nm[str(cc)]
+                        print("   --", s.tags.get(h.get_id()) or ("UNTAGGED " + " ".join(str(h).split())[:200]))
+                except Exception as e:
+                    print(e)
+                print("   trace:", " / ".join(s.trace[-10:]))
             raise Unsupported("no feasible receiver class for " + name)
         return res
 
@@ -467,7 +489,10 @@ class Exec(ExprMixin, SpecMixin, Engine):
         raise Unsupported("%s of %s" % (name, x.kind))
 
     def call_qual(self, s, q, recv, args, kw):
-        con = self.contracts.get(q)
+        # a contract "f#view" is another contract on the same function f; inside a view,
+        # callees are taken in the same view where they have one
+        view = self.cur.name.split("#", 1)[1] if (self.cur is not None and "#" in self.cur.name) else None
+        con = (self.contracts.get(q + "#" + view) if view else None) or self.contracts.get(q)
         if con is not None and not con.inline and not \
                 (self.cur is not None and con is self.cur and False):
             return self.call_contract(s, con, recv, args, kw)
@@ -554,7 +579,7 @@ class Exec(ExprMixin, SpecMixin, Engine):
         return out
 
     def call_contract(self, s, con, recv, args, kw):
-        fdef = self.sources.get(con.name)
+        fdef = self.sources.get(con.ghost.get("of", con.name))
         if fdef is not None:
             env = self.bind_params(fdef, recv, args, kw, s)
         else:
